@@ -45,7 +45,7 @@ PROPERTIES = {
         "rule": ("reflect_total: Write of every kind at top level and nested (nil/non-nil pointers and pointer chains to every basic type, named types, "
                  "int/uint, map/chan/func, interfaces holding basic/named/pointer values, nil interface, nil fields, unexported nil fields, nesting depth "
                  "up to 400) + seeded random values of arbitrary types; WriteFrom over arbitrary values; Read called with typed nil pointers, "
-                 "non-pointers, nil; in a child process (RLIMIT_AS 2 GiB, per-case timeout): for each of 70 (x20 thorough) seeded valid encodings "
+                 "non-pointers, nil; in a child process (RLIMIT_AS 2 GiB, per-case timeout): for each of 50 (x20 thorough) seeded valid encodings "
                  "every truncation, 4 single-byte corruptions per position, every 4-byte window (first 64 positions) overwritten with 4 hostile lengths, random strings "
                  "into the same and into arbitrary types, dedicated length-bomb inputs, ReadInto on every truncation of a list encoding; each decode "
                  "into a variable holding a random old value. outcome (value+consumed | error class | panic) compared with the model; monitors: "
